@@ -41,6 +41,9 @@ type progSet struct {
 	MapOrders bool              `json:"maporders"`
 	Tag       string            `json:"tag"`     // free text: family / what it exercises
 	Without   []string          `json:"without"` // functions removed from the registered table (C08)
+	// functions removed from ONE of the two v1 tables only (the implementations / the checkers): not registered either
+	WithoutCall  []string `json:"without_call"`
+	WithoutCheck []string `json:"without_check"`
 
 	hostVal func() any // host-typed-points: every field of the input point holds this Go value instead
 }
@@ -170,10 +173,7 @@ func astJSON(args []string) (any, error) {
 			return err
 		}
 		n++
-		wo := ps.Without
-		if wo == nil {
-			wo = []string{}
-		}
+		wo := append(append(append([]string{}, ps.Without...), ps.WithoutCall...), ps.WithoutCheck...)
 		return enc.Encode(map[string]any{"id": ps.ID, "v2": ps.V2, "main": ps.Main, "scripts": scripts, "pt": pt,
 			"fuel": ps.Fuel, "maporders": ps.MapOrders, "without": wo})
 	})
